@@ -7,6 +7,7 @@ import (
 	"errors"
 	"flag"
 	"fmt"
+	"io"
 	"math/rand"
 	"net"
 	"runtime"
@@ -25,6 +26,7 @@ type closeRow struct {
 	Code int    `json:"code"`
 	Rlen int    `json:"rlen"`
 	Peer string `json:"peer"`
+	Pre  string `json:"pre"` // what the local reader has consumed when Close is called (spec/WSCloseRows.tla LocalStates)
 	Exp  struct {
 		O    string `json:"o"`
 		Code int    `json:"code"`
@@ -38,13 +40,83 @@ type closeCase struct {
 	Split  int      `json:"split,omitempty"` // received frames: byte offset at which the transport splits the frame
 }
 
+// closePre brings the local reader into the row's state: the peer has sent data (and control) frames of which the
+// application has consumed a part.  It returns false if the state could not be reached (reported).
+func closePre(rep *Report, cc closeCase, c *websocket.Conn, raw *ws.End) bool {
+	pre := cc.Row.Pre
+	if pre == "" || pre == "idle" {
+		return true
+	}
+	send := func(f ws.Frame) {
+		f.Masked = !cc.Client
+		f.Key = [4]byte{7, 1, 8, 2}
+		raw.Out.Write(f.Encode())
+	}
+	body := prf(int64(cc.Row.Code), 5, 300)
+	want := 0 // bytes the application reads before Close
+	toEnd := false
+	switch pre {
+	case "halfread-final-frame":
+		send(ws.Frame{Fin: true, Op: ws.OpBin, Payload: body})
+		want = 7
+	case "halfread-last-fragment":
+		send(ws.Frame{Fin: false, Op: ws.OpBin, Payload: body[:100]})
+		send(ws.Frame{Fin: true, Op: ws.OpCont, Payload: body[100:]})
+		want = 150
+	case "halfread-first-fragment":
+		send(ws.Frame{Fin: false, Op: ws.OpBin, Payload: body[:100]})
+		send(ws.Frame{Fin: true, Op: ws.OpPing, Payload: []byte("mid")})
+		send(ws.Frame{Fin: true, Op: ws.OpCont, Payload: body[100:]})
+		want = 30
+	case "nothing-read-of-two-messages-and-a-ping":
+		send(ws.Frame{Fin: true, Op: ws.OpText, Payload: []byte("first")})
+		send(ws.Frame{Fin: true, Op: ws.OpPing, Payload: []byte("p")})
+		send(ws.Frame{Fin: false, Op: ws.OpBin, Payload: body[:10]})
+		send(ws.Frame{Fin: true, Op: ws.OpCont, Payload: body[10:]})
+		return true
+	case "message-read-to-the-end":
+		send(ws.Frame{Fin: true, Op: ws.OpBin, Payload: body})
+		toEnd = true
+	case "compressed-halfread":
+		z := (&ws.Deflater{}).Compress(bytes.Repeat(body, 4))
+		send(ws.Frame{Fin: true, Rsv1: true, Op: ws.OpBin, Payload: z})
+		want = 500
+	}
+	ctx, cancel := context.WithTimeout(context.Background(), 5*time.Second)
+	defer cancel()
+	_, r, err := c.Reader(ctx)
+	if err != nil {
+		rep.miss("close-pre-state-not-reached", cc, "Reader: "+err.Error())
+		return false
+	}
+	if toEnd {
+		if _, err := io.ReadAll(r); err != nil {
+			rep.miss("close-pre-state-not-reached", cc, "ReadAll: "+err.Error())
+			return false
+		}
+		return true
+	}
+	if _, err := io.ReadFull(r, make([]byte, want)); err != nil {
+		rep.miss("close-pre-state-not-reached", cc, "ReadFull: "+err.Error())
+		return false
+	}
+	return true
+}
+
 func runCloseSend(rep *Report, cc closeCase) {
-	c, raw, err := ws.NewConn(cc.Client, "off", 0)
+	mode := ws.Mode("off")
+	if cc.Row.Pre == "compressed-halfread" {
+		mode = "ct"
+	}
+	c, raw, err := ws.NewConn(cc.Client, mode, 0)
 	if err != nil {
 		rep.miss("handshake", cc, err.Error())
 		return
 	}
 	defer c.CloseNow()
+	if !closePre(rep, cc, c, raw) {
+		return
+	}
 	reason := strings.Repeat("r", cc.Row.Rlen)
 	peerDone := make(chan []ws.Frame, 1)
 	go func() {
